@@ -9,3 +9,5 @@ cargo build --offline
 cargo test --offline --quiet
 CARGO_TARGET_DIR=/verif/target/asan RUSTFLAGS="-Zsanitizer=address -Cforce-frame-pointers=yes -Awarnings" cargo +nightly build --offline --quiet --release --target x86_64-unknown-linux-gnu || echo "note: ASan build unavailable (the C03 check reports that leg as inconclusive)"
 MIRIFLAGS=-Zmiri-disable-isolation cargo +nightly miri run --offline --quiet -- streams C03 >/dev/null || echo "note: Miri unavailable (the C03 check reports that leg as inconclusive)"
+# LD_PRELOAD getenv shim of the ambient-input leg (legs.py rebuilds it when missing or stale)
+mkdir -p /verif/target && cc -shared -fPIC -O1 -o /verif/target/envspy.so /verif/tools/envspy.c -ldl || echo "note: cc unavailable (the ambient-input leg then reports the shim as unavailable and is skipped)"
